@@ -67,9 +67,10 @@ def build_harness(features=None, target_dir=None):
 REPO_TARGET = os.path.join(VERIF, "target-repo")
 
 
-def build_repo_bins(packages=("adf-bdd-bin",), extra=()):
-    """Build CLI / server binaries from /repo's working tree into /verif/target-repo."""
-    cmd = ["cargo", "build", "--offline", "--quiet", "--target-dir", REPO_TARGET]
+def build_repo_bins(packages=("adf-bdd-bin",), extra=(), target_dir=None):
+    """Build CLI / server binaries from /repo's working tree into /verif/target-repo (or target_dir)."""
+    tgt = target_dir or REPO_TARGET
+    cmd = ["cargo", "build", "--offline", "--quiet", "--target-dir", tgt]
     for p in packages:
         cmd += ["-p", p]
     cmd += list(extra)
@@ -78,7 +79,7 @@ def build_repo_bins(packages=("adf-bdd-bin",), extra=()):
     if p.returncode != 0:
         raise ToolError("repo build failed:\n" + p.stdout[-3000:])
     log("repo binaries built in %.1fs" % (time.time() - t0))
-    return os.path.join(REPO_TARGET, "debug")
+    return os.path.join(tgt, "debug")
 
 
 def run_harness(binary, args, timeout=3600, env_extra=None):
